@@ -7,15 +7,15 @@ D="$1"; shift
 P="${D%%-*}"
 IDS=("$@"); [ ${#IDS[@]} -eq 0 ] && IDS=("$P")
 OUT="/verif/seeded/$D"
-/verif/tools/scratch_check.sh re init >/dev/null
-/verif/tools/scratch_check.sh re revert
-/verif/tools/scratch_check.sh re apply "$OUT/patch.diff" || { echo "patch does not apply"; exit 2; }
+/verif/tools/scratch_check.sh ${SCR:-re} init >/dev/null
+/verif/tools/scratch_check.sh ${SCR:-re} revert
+/verif/tools/scratch_check.sh ${SCR:-re} apply "$OUT/patch.diff" || { echo "patch does not apply"; exit 2; }
 declare -A RES
 for id in "${IDS[@]}"; do
-  /verif/tools/scratch_check.sh re check "$id" --tier quick > "$OUT/check_$id.log" 2>&1; RES[$id]=$?
+  /verif/tools/scratch_check.sh ${SCR:-re} check "$id" --tier quick > "$OUT/check_$id.log" 2>&1; RES[$id]=$?
   tail -c 4000 "$OUT/check_$id.log" > "$OUT/check_$id.log.t" && mv "$OUT/check_$id.log.t" "$OUT/check_$id.log"
 done
-/verif/tools/scratch_check.sh re revert
+/verif/tools/scratch_check.sh ${SCR:-re} revert
 J="{"; for id in "${!RES[@]}"; do J+="\"$id\": ${RES[$id]},"; done; J="${J%,}}"
 python3 - "$OUT/meta.json" "$J" <<'PY'
 import json, sys
